@@ -90,6 +90,8 @@ pub struct Ctl {
     pub tape_pos: usize,
     pub fault: Option<FaultPlan>,
     pub fired: bool,
+    /// total number of component calls made when the fault fired (including the failing one)
+    pub fired_total: u64,
     pub counts: [u64; 6],
     pub log_enabled: bool,
     pub log: Vec<IoEvent>,
@@ -141,10 +143,15 @@ impl Ctl {
         if let Some(f) = self.fault {
             if f.kind == kind && f.k == n && !self.fired {
                 self.fired = true;
+                self.fired_total = self.counts.iter().sum();
                 return Some(f.err);
             }
         }
         None
+    }
+
+    pub fn total_calls(&self) -> u64 {
+        self.counts.iter().sum()
     }
 
     fn step(&mut self, want: usize) -> Step {
@@ -197,7 +204,8 @@ impl Write for Sink {
     fn write(&mut self, buf: &[u8]) -> io::Result<usize> {
         let mut c = self.ctl.borrow_mut();
         if let Some(e) = c.enter(Kind::Write) {
-            if e == ErrKind::ReturnsZero {
+            // Ok(0) is a failure only for a non-empty buffer
+            if e == ErrKind::ReturnsZero && !buf.is_empty() {
                 return Ok(0);
             }
             return Err(injected(e));
@@ -310,7 +318,8 @@ impl Write for Chunk {
     fn write(&mut self, buf: &[u8]) -> io::Result<usize> {
         let mut c = self.ctl.borrow_mut();
         if let Some(e) = c.enter(Kind::Write) {
-            if e == ErrKind::ReturnsZero {
+            // Ok(0) is a failure only for a non-empty buffer
+            if e == ErrKind::ReturnsZero && !buf.is_empty() {
                 return Ok(0);
             }
             return Err(injected(e));
